@@ -138,14 +138,14 @@ def e_det(c):
 @st.composite
 def s_stat(draw):
     return {"gv": draw(s_gv(sps_max=32, with_extra=True)), "G": draw(st.floats(3, 40)), "NF": draw(st.floats(3, 10)), "seed": draw(st.integers(0, 2 ** 31 - 1)),
-            "npol": draw(st.sampled_from([1, 2])), "logn": draw(st.sampled_from([16, 16, 17, 18])), "p_in": draw(st.floats(-40, 0)),
+            "npol": draw(st.sampled_from([1, 2])), "logn": draw(st.sampled_from([16, 16, 17, 18])), "nodd": draw(st.sampled_from([0, 0, 0, 0, 0, 0, 0, 0, 1, 1, 2])), "p_in": draw(st.floats(-40, 0)),
             "osnr_in": draw(st.one_of(st.none(), st.floats(5, 40)))}
 
 
 def e_stat(c):
     reset()
     sps, R, fs = apply_gv(c["gv"])
-    N = 2 ** c["logn"]
+    N = {0: 2 ** c["logn"], 1: 100003, 2: 2 ** 20 + 50001}[c.get("nodd", 0)]      # powers of two, a prime length, a record beyond 2^20 samples
     rs = np.random.RandomState(c["seed"])
     P = 10 ** (c["p_in"] / 10) * 1e-3
     shape = (N,) if c["npol"] == 1 else (2, N)
@@ -178,6 +178,13 @@ def e_stat(c):
     check(bool(np.all(np.abs(k4 - 3) <= 6 * np.sqrt(96 / N))), "ase-not-gaussian", f"4th moments {k4}")
     lag = np.array([np.mean(comps[i, 1:] * comps[i, :-1]) for i in range(4)]) / sd ** 2
     check(bool(np.all(np.abs(lag) <= 6 / np.sqrt(N))), "ase-not-white", f"lag-1 correlation {lag}")
+    # stationarity: the same noise power in every eighth of the record and in its last 1/64 (chi-square with 4M degrees of freedom per segment)
+    pw = (np.abs(ase) ** 2).sum(axis=0)
+    for nseg in (8, 64):
+        M = N // nseg
+        segs = [pw[i * M:(i + 1) * M].mean() for i in range(nseg)] + [pw[N - M:].mean()]
+        worst = max(abs(v / P_ase - 1) for v in segs)
+        check(worst <= 7 / np.sqrt(2 * M), "ase-not-stationary", f"N={N}: segment power / P_ase deviates by {worst:.4f} (band {7 / np.sqrt(2 * M):.4f}, {nseg} segments + tail)")
     # OSNR never improves (beyond the sampling fluctuation of the signal-independent cross term)
     if nz is not None:
         np.random.seed(c["seed"] ^ 0x1234)
@@ -187,10 +194,10 @@ def e_stat(c):
         slack = 6 * 2 * np.sqrt(g * pn_in * P_ase / N) / (g * pn_in + P_ase)
         check(ps_out / pn_out <= ps_in / pn_in * (1 + slack + 1e-9), "edfa-improves-osnr",
               f"OSNR in {ps_in / pn_in:.4e} out {ps_out / pn_out:.4e} (G={G:.1f} dB)")
-    return {"nontrivial": True, "classes": [f"pol{c['npol']}", f"N2^{c['logn']}", "noisy-input" if nz is not None else "clean-input"]}
+    return {"nontrivial": True, "classes": [f"pol{c['npol']}", f"N2^{c['logn']}" if not c.get("nodd") else f"N={N}", "noisy-input" if nz is not None else "clean-input"]}
 
 
 PARTS = [
     Part("det", e_det, s_det(), quick=800, thorough=40000, shards=8, rule="deterministic clauses under fixed numpy seeds"),
-    Part("stat", e_stat, s_stat(), quick=40, thorough=1200, shards=16, quick_shards=4, shrink=False, rule="ASE statistics over 2^16..2^18 samples, six-sigma bands"),
+    Part("stat", e_stat, s_stat(), quick=40, thorough=1200, shards=16, quick_shards=4, shrink=False, rule="ASE statistics over 2^16..2^18, 100003 and 2^20+50001 samples, six-sigma bands, stationarity over 8/64 segments and the tail"),
 ]
